@@ -52,7 +52,7 @@ BV == O("bvar", 0, 0, FALSE, 0)
 IV == O("ivar", 0, 0, FALSE, 0)
 TT == O("blit", 0, 0, TRUE, 0)
 FF == O("blit", 0, 0, FALSE, 0)
-BoolNests == { <<>>, <<A1("BA1", 2)>>, <<A2("BA2", 1, 3), TT>>, <<L(<<BV, L(<<A1("BA1", 2), FF>>)>>)>>,
+BoolNests == { <<>>, <<A1("BA1", 17)>>, <<A1("BA1", 16), TT>>, <<A1("BA1", 2)>>, <<A2("BA2", 1, 3), TT>>, <<L(<<BV, L(<<A1("BA1", 2), FF>>)>>)>>,
                <<L(<<>>), BV>>, <<TT, TT, L(<<TT>>)>>, <<FF>>, <<A1("BA1", 0)>>, <<A2("BA2", 2, 2)>>,
                <<BV, BV, L(<<L(<<L(<<BV>>)>>)>>)>>, <<L(<<A1("BA1", 1), A2("BA2", 1, 1)>>), FF, BV>> }
 IntNests  == { <<>>, <<A1("IA1", 2)>>, <<A2("IA2", 1, 3), O("ilit", 0, 0, FALSE, 3)>>,
